@@ -464,7 +464,7 @@ def expected_escape_sets():
     return {"s": S, "S": SX.compl(S), "i": I, "I": SX.compl(I), "c": C, "C": SX.compl(C), "d": D, "D": SX.compl(D), "w": W, "W": SX.compl(W)}
 
 
-@rule("ESC-TABLE", ["C07", "C09", "C10"], floor=39)
+@rule("ESC-TABLE", ["C07", "C09", "C10", "C17"], floor=39)
 def esc_table(ctx):
     """ReCompiler::escape maps exactly the grammar's escapes: n r t -> the control char; the 14 self escapes ->
     themselves; $ -> itself (XPath) / error (XSD); s S i I c C d D w W -> the prescribed sets (upper case =
